@@ -28,6 +28,7 @@ type Contract struct {
 	Mode      string // "int" (default) or "bv"
 	Requires  []*Clause
 	Ensures   []*Clause
+	GhostEns  []*Clause // ghost-defining postconditions: assumed at call sites, not proof obligations
 	Invs      []*Clause
 	Modifies  []*Clause
 	HasMod    bool // a modifies clause (possibly empty) was given
@@ -41,6 +42,7 @@ type Contract struct {
 	UF        bool // external: result is an uninterpreted function of the arguments
 	Params    []string // external: parameter names
 	Results   []string // external / override: result names
+	Strict    []string // package paths: calls into them must have a contract
 	Split     []string // interface parameters whose dynamic type is case-split in postcondition obligations
 	Expand    []string // callee names whose contract is ignored in this unit (body inlined instead)
 	NoInline  []string // callee names never inlined in this unit
@@ -221,10 +223,10 @@ func parseCExpr(text string) (ast.Expr, string, error) {
 }
 
 var clauseKeywords = map[string]bool{
-	"func": true, "props": true, "mode": true, "requires": true, "ensures": true, "invariant": true,
+	"func": true, "props": true, "ghostensures": true, "mode": true, "requires": true, "ensures": true, "invariant": true,
 	"modifies": true, "safety": true, "overflow": true, "inline": true, "trusted": true, "dispatch": true,
 	"let": true, "spec": true, "external": true, "uf": true, "params": true, "results": true,
-	"global": true, "noinline": true, "expand": true, "split": true, "witness": true, "havoc": true, "inlineall": true, "unroll": true,
+	"global": true, "noinline": true, "expand": true, "split": true, "strictpkgs": true, "witness": true, "havoc": true, "inlineall": true, "unroll": true,
 }
 
 // parseContractSource extracts the //@ lines of one file.
@@ -346,6 +348,10 @@ func (cs *ContractSet) parseContractSource(pkgPath, filename string, src []byte)
 				if c := mk(rest); c != nil {
 					cur.Ensures = append(cur.Ensures, c)
 				}
+			case "ghostensures":
+				if c := mk(rest); c != nil {
+					cur.GhostEns = append(cur.GhostEns, c)
+				}
 			case "invariant":
 				// invariant <n>: expr
 				colon := strings.Index(rest, ":")
@@ -390,6 +396,8 @@ func (cs *ContractSet) parseContractSource(pkgPath, filename string, src []byte)
 				cur.Results = strings.Fields(strings.ReplaceAll(rest, ",", " "))
 			case "dispatch":
 				cur.Dispatch = append(cur.Dispatch, strings.Fields(strings.ReplaceAll(rest, ",", " "))...)
+			case "strictpkgs":
+				cur.Strict = append(cur.Strict, strings.Fields(strings.ReplaceAll(rest, ",", " "))...)
 			case "split":
 				cur.Split = append(cur.Split, strings.Fields(strings.ReplaceAll(rest, ",", " "))...)
 			case "expand":
